@@ -156,7 +156,7 @@ Fixpoint run_from (c : cfg) (orc : oracle) (ops : list wop) (st : state) (n : na
 Definition init_state (init : Z -> option str) : state :=
   {| opens := []; seen := []; ctr := 0; clock := 0; att := 0%nat; fs := init; trace := [] |}.
 
-Definition run (c : cfg) (orc : oracle) (init : Z -> option str) (ops : list wop) : nat * res :=
+Definition run_ops (c : cfg) (orc : oracle) (init : Z -> option str) (ops : list wop) : nat * res :=
   run_from c orc ops (init_state init) 0%nat.
 
 Definition state_of (r : res) : state := match r with Ok s => s | Raise _ s => s end.
@@ -245,7 +245,7 @@ Definition run_C19 (mode : Z) (v : Val) : Val :=
   let ops := map dec_op (getL (nthV 5 v)) in
   let univ := getZs (nthV 6 v) in
   match mode with
-  | 0 => let '(k, r) := run c (script_oracle s) init ops in
+  | 0 => let '(k, r) := run_ops c (script_oracle s) init ops in
          let st := state_of r in
          let fin := close_all st in
          VL [ VL [VZ (Z.of_nat k); VZ (match r with Ok _ => 0 | Raise e _ => e end)];
